@@ -235,6 +235,126 @@ pub fn cases(quick: bool) -> Vec<Snip> {
             ])]
         }));
     }
+    // longer printable-ASCII strings (the property's "random longer strings", replaced by an
+    // enumerated family): position-dependent content (a cyclic walk through the 94 printable
+    // characters other than the quote, so that any shift by one is visible), lengths around powers
+    // of two and around 255, counts / positions from a lattice around 0, the length and 255 / 256.
+    // Results are observed through their length, their ends (three characters each), where they are
+    // found again, and the defining equations; nothing longer than 60 characters is printed.
+    {
+        let lens: Vec<usize> = if quick {
+            vec![6, 8, 15, 16, 17, 33, 64, 94, 127, 128, 129, 254, 255, 256, 257, 300]
+        } else {
+            vec![6, 7, 8, 9, 15, 16, 17, 31, 32, 33, 63, 64, 65, 94, 95, 127, 128, 129, 200, 254, 255, 256, 257, 300, 511, 512, 513, 1000]
+        };
+        let offsets: &[usize] = if quick { &[0] } else { &[0, 37] };
+        for &l in &lens {
+            for &o in offsets {
+                let text: String = (0..l)
+                    .map(|i| {
+                        let k = (i * 7 + o) % 94; // 7 is coprime to 94: all characters occur, neighbours differ
+                        let c = 32 + k as u8;
+                        (if c >= b'"' { c + 1 } else { c }) as char
+                    })
+                    .collect();
+                let li = l as i64;
+                let mut ks: Vec<i64> = vec![0, 1, 2, li / 2, li - 1, li, li + 1, 255, 256, 1000, 32767];
+                ks.sort();
+                ks.dedup();
+                for (ki, &k) in ks.iter().enumerate() {
+                    let t = text.clone();
+                    out.push(snip(format!("long string len {} offset {} count {}", l, o, k), move |b| {
+                        let mut stmts = vec![b.assign(var("S$"), st(&t))];
+                        let s = || var("S$");
+                        // the count once as an INTEGER literal, once through a typed variable
+                        let kv = match ki % 4 {
+                            0 => num(k),
+                            1 => {
+                                stmts.push(b.assign(var("K&"), num(k)));
+                                var("K&")
+                            }
+                            2 => {
+                                stmts.push(b.assign(var("K!"), num(k)));
+                                var("K!")
+                            }
+                            _ => {
+                                stmts.push(b.assign(var("K#"), bin(BinOp::Add, num(k), Expr::Num(".25#".into()))));
+                                var("K#")
+                            }
+                        };
+                        let ends = |e: Expr| -> Vec<Expr> {
+                            vec![
+                                builtin("LEN", vec![e.clone()]),
+                                st("["),
+                                builtin("LEFT$", vec![e.clone(), num(3)]),
+                                st("|"),
+                                builtin("RIGHT$", vec![e, num(3)]),
+                                st("]"),
+                            ]
+                        };
+                        let mut items = vec![];
+                        items.extend(ends(builtin("LEFT$", vec![s(), kv.clone()])));
+                        items.extend(ends(builtin("RIGHT$", vec![s(), kv.clone()])));
+                        stmts.push(b.print(items));
+                        if k >= 1 {
+                            let mut items = vec![];
+                            items.extend(ends(builtin("MID$", vec![s(), kv.clone()])));
+                            for m in [0, 1, 3, li, 32767] {
+                                items.extend(ends(builtin("MID$", vec![s(), kv.clone(), num(m)])));
+                            }
+                            stmts.push(b.print(items));
+                            // where a piece of three characters is found again, from this position on
+                            let mut items = vec![];
+                            for j in [1, li / 2, (li - 2).max(1)] {
+                                items.push(builtin("INSTR", vec![kv.clone(), s(), builtin("MID$", vec![s(), num(j), num(3)])]));
+                            }
+                            stmts.push(b.print(items));
+                        }
+                        if k <= 1000 {
+                            stmts.push(b.print(vec![
+                                bin(BinOp::Eq, bin(BinOp::Add, builtin("LEFT$", vec![s(), kv.clone()]), builtin("MID$", vec![s(), bin(BinOp::Add, kv.clone(), num(1))])), s()),
+                                builtin("LEN", vec![bin(BinOp::Add, s(), builtin("LEFT$", vec![s(), kv.clone()]))]),
+                            ]));
+                        }
+                        stmts
+                    }));
+                }
+                // the whole string through the case and trim functions, printed in pieces of 60
+                let t = text.clone();
+                out.push(snip(format!("long string len {} offset {} case / trim", l, o), move |b| {
+                    let mut stmts = vec![b.assign(var("S$"), bin(BinOp::Add, bin(BinOp::Add, st("  "), st(&t)), st("   ")))];
+                    for (f, v) in [("UCASE$", "U$"), ("LCASE$", "L$"), ("LTRIM$", "T$"), ("RTRIM$", "R$")] {
+                        stmts.push(b.assign(var(v), builtin(f, vec![var("S$")])));
+                        stmts.push(b.print(vec![builtin("LEN", vec![var(v)])]));
+                        let mut p = 1;
+                        while p <= t.len() + 5 {
+                            stmts.push(b.print(vec![st("["), builtin("MID$", vec![var(v), num(p as i64), num(60)]), st("]")]));
+                            p += 60;
+                        }
+                    }
+                    stmts.push(b.print(vec![
+                        bin(BinOp::Eq, builtin("UCASE$", vec![var("L$")]), var("U$")),
+                        bin(BinOp::Eq, builtin("LTRIM$", vec![var("R$")]), builtin("RTRIM$", vec![var("T$")])),
+                        builtin("LEN", vec![bin(BinOp::Add, var("T$"), var("R$"))]),
+                    ]));
+                    stmts
+                }));
+            }
+        }
+        // SPACE$ / STRING$ with large counts, and their equation
+        for n in [8i64, 255, 256, 257, 1000, 32767] {
+            out.push(snip(format!("SPACE$({}) / STRING$({}, ...)", n, n), move |b| {
+                vec![b.print(vec![
+                    builtin("LEN", vec![builtin("SPACE$", vec![num(n)])]),
+                    builtin("LEN", vec![builtin("STRING$", vec![num(n), num(65)])]),
+                    bin(BinOp::Eq, builtin("SPACE$", vec![num(n)]), builtin("STRING$", vec![num(n), num(32)])),
+                    bin(BinOp::Eq, builtin("STRING$", vec![num(n), st("A")]), builtin("STRING$", vec![num(n), num(65)])),
+                    builtin("LEN", vec![builtin("LTRIM$", vec![bin(BinOp::Add, builtin("SPACE$", vec![num(n)]), st("x"))])]),
+                    builtin("INSTR", vec![bin(BinOp::Add, builtin("STRING$", vec![num(n), st("A")]), st("B")), st("AB")]),
+                ])]
+            }));
+        }
+    }
     // VAL(STR$(k)) = k
     let ks: Vec<i64> = if quick {
         (-32768i64..=32767).filter(|k: &i64| k % 13 == 0 || k.abs() >= 32760 || k.abs() <= 20).collect()
